@@ -1332,6 +1332,10 @@ def generate_field_code(cls_loader: LoadMixin,
         pe.field_name = field.name
         raise pe from None
 
+    finally:
+        # an `Annotated[..., Pattern(...)]` applies to its own field only
+        extras.pop('pattern', None)
+
 
 def re_raise(e, cls, o, fields, field, value):
     # If the object `o` is None, then raise an error with
